@@ -52,7 +52,7 @@ type pendingOp struct {
 	impl string
 	mode string // json | exact
 	desc interface{}
-	sig  string
+	sig  string // when set, a disagreement is an oracle failure with this signature (proved-sound checker verdicts)
 }
 
 type Ctx struct {
@@ -136,6 +136,20 @@ func (c *Ctx) Corr(op map[string]interface{}, impl string, mode string, desc int
 	}
 }
 
+// CorrAs: like Corr, but a disagreement is recorded as a failure of the property itself (kind oracle, signature
+// sig): used where the driver evaluates a proved-sound checker on the implementation's output, so that "the
+// checker does not accept" is a verdict about the implementation, not a broken tie.
+func (c *Ctx) CorrAs(op map[string]interface{}, impl string, mode string, desc interface{}, sig string) {
+	b, err := json.Marshal(op)
+	if err != nil {
+		panic(err)
+	}
+	c.pending = append(c.pending, pendingOp{line: string(b), impl: impl, mode: mode, desc: desc, sig: sig})
+	if len(c.pending) >= 20000 {
+		c.Flush()
+	}
+}
+
 // Flush runs the driver over the queued ops and records disagreements.
 func (c *Ctx) Flush() {
 	if len(c.pending) == 0 {
@@ -200,6 +214,11 @@ func (c *Ctx) Flush() {
 		}
 		var opv interface{}
 		_ = json.Unmarshal([]byte(o.line), &opv)
+		if o.sig != "" {
+			c.Fail(Failure{Kind: "oracle", Sig: o.sig, What: "the proved-sound checker of the Lean model does not accept the implementation's output: " + clip(model),
+				Case: o.desc, Impl: clip(o.impl), Model: clip(model)})
+			continue
+		}
 		c.Fail(Failure{Kind: "correspondence", Sig: "corr:" + opName(o.line), What: "model and implementation disagree",
 			Case: map[string]interface{}{"op": opv, "desc": o.desc}, Impl: clip(o.impl), Model: clip(model)})
 	}
@@ -245,8 +264,8 @@ func (c *Ctx) Finish(path string) {
 }
 
 // pick helpers
-func (c *Ctx) Intn(n int) int { return c.Rng.Intn(n) }
-func (c *Ctx) Coin(p float64) bool { return c.Rng.Float64() < p }
+func (c *Ctx) Intn(n int) int                  { return c.Rng.Intn(n) }
+func (c *Ctx) Coin(p float64) bool             { return c.Rng.Float64() < p }
 func pickStr(r *rand.Rand, xs []string) string { return xs[r.Intn(len(xs))] }
 
 func sortedKeys(m map[string]int) []string {
